@@ -103,7 +103,7 @@ def _cbucket(c):
 
 @st.composite
 def ls_case(draw):
-    x = draw(gen.signal(dtype="any", kinds=LS_KINDS, n=_length(draw)))
+    x = draw(gen.signal(dtype="any", kinds=LS_KINDS, n=_length(draw), noise_levels=(0.0, 1e-7, 1e-5, 1e-3, 0.1, 1.0, 1e-6)))
     x["gain"] = draw(gen.gains)         # the data may be in any unit: every clause is scale-free
     return {"x": x, "p": _order(draw, x["n"])}
 
@@ -160,6 +160,13 @@ def _ls_body(ctx, case, modified):
     ctx.check(e >= -tol, "%s error %r is negative" % (name, e))
     # optimality seen from the other side: the reference minimiser is not better
     ctx.check(emin_a <= emin + tol2, "%s coefficients give energy %r > minimum %r" % (name, emin_a, emin))
+    # the same optimality at the resolution of the minimum itself (high-SNR data: the minimum is 1e-10 of the signal
+    # energy and a sub-optimal fit hides below a tolerance that is relative to the signal).  Near the minimiser the
+    # energy is stationary, so two valid solutions differ by rounding only: 1e-6 relative + rounding of the residual.
+    slack = 1e-6 * emin + 1e-15 * S * (1 + max(a1, float(np.sum(np.abs(aref))))) ** 2
+    ctx.check(emin_a <= emin + slack,
+              "%s coefficients are not the minimiser: their prediction-error energy %r exceeds the least-squares minimum %r by %.3g%% (N=%d p=%d)"
+              % (name, emin_a, emin, 100.0 * (emin_a - emin) / max(emin, 1e-300), N, p), sig={"clause": "minimiser-relative"})
 
 
 @sub("C14.covar", strategy=ls_case(), quick=800, thorough=20000,
@@ -335,3 +342,14 @@ def c14_recover(ctx, case):
      doc="same recovery for arcovar_marple/modcovar_marple (normal-equation accuracy: tolerance ~ cond^2)")
 def c14_recover_marple(ctx, case):
     _recover_body(ctx, case, True)
+
+
+# ---- number-type invariance (integer samples of a narrow dtype) -------------------
+from vlib import dtypecheck as _dt   # noqa: E402
+
+
+@sub("C14.dtype", strategy=_dt.int_case(sorted(_dt.TABLES["C14"])), quick=300, thorough=6000,
+     doc="the same integer-valued samples stored as int16/int8/uint8/uint16/int32/int64 or as float64 give the same result "
+         "(products of two narrow integers do not fit their dtype): " + ", ".join(sorted(_dt.TABLES["C14"])))
+def c14_dtype(ctx, case):
+    _dt.body(ctx, case, _dt.TABLES["C14"])
